@@ -581,7 +581,8 @@ fn exec_top(p: &Plan16, counters: &mut Counters) -> Result<RunOut, String> {
         // outcome class: which c16.* counter moved
         let after: Vec<(String, u64)> = ctx.counters.0.iter().filter(|(k, _)| k.starts_with("c16.")).map(|(k, v)| (k.clone(), *v)).collect();
         let total: u64 = after.iter().map(|x| x.1).sum();
-        ctx.trace.u64(total - before).u64(ctx.failed() as u64);
+        let failed = ctx.failed() as u64;
+        ctx.trace.u64(total - before).u64(failed);
         r.map(|_| ctx.finish())
     });
     match r {
